@@ -576,10 +576,12 @@ func check(text string) verdict {
 			v = verdict{code: -1, text: "OTHER " + err.Error()}
 		}
 	}()
+	tm := time.NewTimer(20 * time.Second)
+	defer tm.Stop()
 	select {
 	case v := <-ch:
 		return v
-	case <-time.After(20 * time.Second):
+	case <-tm.C:
 		return verdict{timeout: true, text: "TIMEOUT"}
 	}
 }
@@ -649,6 +651,20 @@ func randomCase(r *rand.Rand, size int, dup bool) rcase {
 	rs := make([]rl, 0, size+1)
 	for _, i := range idx {
 		rs = append(rs, rl{pool[i], pickParam(r, pool[i], c, rel && r.Intn(10) < 7)})
+	}
+	if size >= 3 && r.Intn(8) == 0 {
+		// both false-valued booleans that the compiler filters out, next to other rules
+		keep := rs[:0]
+		for _, x := range rs {
+			if x.name != "nullable" && x.name != "const" {
+				keep = append(keep, x)
+			}
+		}
+		for len(keep) > size-2 {
+			keep = keep[:len(keep)-1]
+		}
+		rs = append(keep, rl{"nullable", boolParams()[1]}, rl{"const", boolParams()[1]})
+		r.Shuffle(len(rs), func(i, j int) { rs[i], rs[j] = rs[j], rs[i] })
 	}
 	if dup {
 		d := rs[r.Intn(len(rs))]
